@@ -20,3 +20,25 @@ package haproxy
 //@   ensures one-reload:         calls(reload) <= 1
 //@   ensures one-write:          calls(writeConfig) <= 1
 //@ end
+
+// ---------------------------------------------------------------------------
+// C17 — the acme work queue follows the model, on the leader only
+
+//@ count QAdd     = (utils.QueueFacade).Add
+//@ count QRemove  = (utils.QueueFacade).Remove
+//@ count Leader   = (types.LeaderElector).IsLeader
+//@ count HasAcc   = (acme.Signer).HasAccount
+//@ count BuildAdd = (*types.AcmeStorages).BuildAcmeStoragesAdd
+//@ count BuildDel = (*types.AcmeStorages).BuildAcmeStoragesDel
+
+//@ func (*instance).AcmeUpdate
+//@   props C17
+//@   ensures disabled:  calls(Leader) == 0 ==> calls(QAdd) == 0 && calls(QRemove) == 0
+//@   ensures nonleader: calls(Leader) == 1 && !last(Leader) ==> calls(QAdd) == 0 && calls(QRemove) == 0
+//@   ensures noaccount: calls(Leader) == 1 && last(Leader) && !last(HasAcc) ==> calls(QAdd) == 0 && calls(QRemove) == 0
+//@   ensures follows:   calls(Leader) == 1 && last(Leader) && last(HasAcc) ==>
+//@       calls(BuildAdd) == 1 && calls(BuildDel) == 1 && calls(QAdd) == len(last(BuildAdd)) && calls(QRemove) == len(last(BuildDel))
+//@   loop 1 invariant wf:   acmeWF(storages)
+//@   loop 1 invariant adds: 0 <= $idx(1) && $idx(1) <= len(last(BuildAdd)) && calls(QAdd) == $idx(1) && calls(QRemove) == 0 && calls(Leader) == 1 && last(Leader) && last(HasAcc) && calls(BuildAdd) == 1 && calls(BuildDel) == 0
+//@   loop 2 invariant dels: 0 <= $idx(2) && $idx(2) <= len(last(BuildDel)) && calls(QRemove) == $idx(2) && calls(QAdd) == len(last(BuildAdd)) && calls(Leader) == 1 && last(Leader) && last(HasAcc) && calls(BuildAdd) == 1 && calls(BuildDel) == 1
+//@ end
